@@ -22,7 +22,7 @@ RULE = ("strings from a redirect grammar: 24 keys (redirect-like in any case + l
         "x nesting depth <= 2 exhaustively (inner level with matching, missing or doubled percent-encoding), depth 3-4 and AMP / Marfeel cache hosts with empty and non-empty tails seeded-randomly; "
         "x recursive in {True, False}. A case is one string; non-trivial = infer_redirection(u, recursive=False) != u or the string carries a redirect-like key; distinct = distinct string.")
 ASSUMPTIONS = ["bounded progress instead of 'eventually': nesting depth of one top-level call <= len(u)+2 and the non-recursive iteration is stationary within len(u)+2 steps",
-               "provenance is lenient: a result must be u itself, or 'https://'+tail for a tail of u following a '/', or t / 'https://'+t / urljoin(u, t) for t the (once percent-decoded) value of ANY key=value of u",
+               "provenance is lenient: a result must be u itself, or 'https://'+tail for a tail of u following a '/', or t / 'https://'+t / urljoin(u, t) for t the (once percent-decoded) value of a key=value of u whose key is one of the documented redirect-like names",
                "recursion limit lowered to 1200 so runaway recursion is observed as RecursionError, a per-run wall-clock watchdog is inconclusive only"]
 FLOORS = ["step-https", "step-http", "step-relative", "step-amp", "step-youtube", "step-none", "depth>=3", "self-referential", "empty-target", "lookalike-key", "key-in-host", "recursive-checked", "fixed-point-checked"]
 PROBE_FLOORS = ["infer_redirection"]
@@ -83,7 +83,7 @@ def one_step_ok(u, r):
                 if i > 0 and u[i - 1] == "/" and u.endswith(tail):
                     return True
                 i = u.find(tail, i + 1)
-    for v in values(u):
+    for v in values(u, redirect_like_only=True):
         t = unquote(v)
         cands = {t, "https://" + t}
         try:
@@ -95,11 +95,19 @@ def one_step_ok(u, r):
     return False
 
 
-def values(u):
-    """The text after EVERY '=' of u up to the next '&' (overlapping: a value may itself contain key=value)."""
+def values(u, redirect_like_only=False):
+    """The text after EVERY '=' of u up to the next '&' (overlapping: a value may itself contain key=value).
+    With redirect_like_only, only values whose key - the text between the previous '?', '&' or start of string and the '=' -
+    is one of the documented redirect-like parameter names (a look-alike such as 'xurl' or 'curl' is another parameter)."""
     i = u.find("=")
     while i != -1:
         j = u.find("&", i)
+        if redirect_like_only:
+            k = max(u.rfind("?", 0, i), u.rfind("&", 0, i))
+            key = u[k + 1:i]
+            if not REDIRECT_LIKE.match(key):
+                i = u.find("=", i + 1)
+                continue
         yield u[i + 1:] if j == -1 else u[i + 1:j]
         i = u.find("=", i + 1)
 
